@@ -23,3 +23,41 @@ def run_cli(argv):
     finally:
         sys.argv = old
     return out.getvalue(), err.getvalue(), exc, code
+
+
+def alt_tables_root(scratch):
+    """A tables root that differs from the bundled one in ONE Table B entry of version 33 (012101: scale 1 instead
+    of 2, 18 bits instead of 16): a command that ignores `-t/--tables-root-directory` for its decoder or encoder gives visibly
+    different values/bytes.  Everything else is symlinked.  Returns the path."""
+    import json
+    import os
+    repo = os.environ.get('VERIF_REPO', '/repo')
+    src = os.path.join(repo, 'pybufrkit', 'tables')
+    dst = os.path.join(scratch, 'alt_tables')
+    if os.path.isdir(dst):
+        return dst
+    os.makedirs(os.path.join(dst, '0', '0_0', '33'))
+    for name in os.listdir(os.path.join(src, '0')):
+        if name != '0_0':
+            os.symlink(os.path.join(src, '0', name), os.path.join(dst, '0', name))
+    for name in os.listdir(os.path.join(src, '0', '0_0')):
+        if name != '33':
+            os.symlink(os.path.join(src, '0', '0_0', name), os.path.join(dst, '0', '0_0', name))
+    for name in os.listdir(os.path.join(src, '0', '0_0', '33')):
+        if name != 'TableB.json':
+            os.symlink(os.path.join(src, '0', '0_0', '33', name), os.path.join(dst, '0', '0_0', '33', name))
+    with open(os.path.join(src, '0', '0_0', '33', 'TableB.json')) as f:
+        tb = json.load(f)
+    e = list(tb['012101'])
+    e[2], e[4] = 1, 18
+    tb['012101'] = e
+    with open(os.path.join(dst, '0', '0_0', '33', 'TableB.json'), 'w') as f:
+        json.dump(tb, f)
+    return dst
+
+
+def alt_message(rng, root, nsub=3, compressed=False, ids=(1001, 12101, 102002, 12101, 2001)):
+    """an R-produced message over the alternative tables (its 012101 fields are 18 bits wide, scale 1)"""
+    from mon import refbufr as R
+    B, D = R.load_tables(0, 0, 0, 33, 0, root=root)
+    return R.build_message(list(ids), B, D, R.Policy(rng), nsub, compressed, 4, dict(master_table_version=33))
